@@ -77,7 +77,7 @@ CLAIMED = {
  "C04": dict(
    text="Proof. Per generated design (sequential bodies and coroutines) x reset variant (sync/async x active high/low), with defaulted, default-less, noreset, pushed objects, variables and on_reset actions: kernel-checked theorem that for ALL input "
         "sequences (reset at any clock, for any duration, from any reachable state, followed by any inputs) the parsed VHDL equals 'reset => defaults on the resettable objects, coroutine back to its first state, everything else kept, nothing else runs', observed "
-        "before and after every clock edge (asynchronous resets visible at once); plus unbounded lemmas that the reference returns to its power-up state from ANY state.",
+        "before and after every clock edge (asynchronous resets visible at once); plus unbounded lemmas that the reference returns to its power-up state from ANY state. For ALL programs of the C01 grammar: C04_lower_rst_correct (the lowering model with the emitted reset clause = the reference with reset, every variant, every input sequence) and C04_lower_reset_from_any_config_all (one reset clock takes any configuration to power-up; objects without default / noreset keep their value); compound noreset objects and derived contexts by equivalence pairs proved for all input sequences.",
    technique="Rocq proof: verified product-reachability checker per compiled design against reset-wrapped Gallina reference machines",
    design_ref="DESIGN.md §6 C04"),
  "C08": dict(
